@@ -102,7 +102,7 @@ theorem agreeC_undone (s : Srv) (l : Nat) (rest : List Task) (c : Nat) : AgreeC 
   ⟨rfl, fun _ => rfl, rfl, rfl, rfl⟩
 
 theorem ext_undone (s : Srv) (l : Nat) (rest : List Task) : Ext s (undone s l rest) :=
-  ⟨rfl, rfl, rfl, rfl, rfl, rfl, rfl, List.Sublist.refl _, fun _ => rfl, fun _ => rfl, rfl, [], by simp [undone], by simp⟩
+  ⟨rfl, rfl, rfl, rfl, rfl, rfl, rfl, List.Sublist.refl _, fun _ => rfl, fun _ => rfl, rfl, rfl, [], by simp [undone], by simp⟩
 
 theorem agree_undone (s : Srv) (l : Nat) (t : Task) (rest : List Task) (hd : s.done l = t :: rest) (c : Nat) (h : about c t = false) :
     Agree s (undone s l rest) c := by
